@@ -73,10 +73,11 @@ def run(F, rep):
                 n_sites += 1
                 ok, why = aud.discharge(bi, t)
                 desc = aud.describe(t)
+                dn = aud.describe_norm(t)
                 how = "auto"
-                if not ok and (k, desc) in table:
-                    ok, why, how = True, "table: " + table[(k, desc)], "table"
-                    used_table.add((k, desc))
+                if not ok and (k, dn) in table:
+                    ok, why, how = True, "table: " + table[(k, dn)], "table"
+                    used_table.add((k, dn))
                 rep.ob("C14-AUDIT", "%s in %s" % (desc, _short(k)), ok, detail=why, site=site_of(f, t), how=how,
                        key="C14-AUDIT | %s | %s" % (k, desc))
             elif t["k"] == "call" and not t.get("indirect"):
